@@ -232,27 +232,18 @@ func (vt *Model) cub(ps int) {
 }
 
 // Cursor Next Line (CNL) CSI Ps E
-// Move cursor to left margin Ps lines down, scrolling if necessary
+// Move cursor to left margin Ps lines down, stopping at the bottom margin (no
+// scrolling)
 func (vt *Model) cnl(ps int) {
-	vt.lastCol = false
-	if ps == 0 {
-		ps = 1
-	}
-	for i := 0; i < ps; i += 1 {
-		vt.nel()
-	}
+	vt.cud(ps)
+	vt.cursor.col = vt.margin.left
 }
 
 // Cursor Preceding Line (CPL) CSI Ps F
-// Move cursor to left margin Ps lines down, scrolling if necessary
+// Move cursor to left margin Ps lines up, stopping at the top margin (no
+// scrolling)
 func (vt *Model) cpl(ps int) {
-	vt.lastCol = false
-	if ps == 0 {
-		ps = 1
-	}
-	for i := 0; i < ps; i += 1 {
-		vt.ri()
-	}
+	vt.cuu(ps)
 	vt.cursor.col = vt.margin.left
 }
 
